@@ -20,7 +20,8 @@ LEVEL_TEXT = ('All histories of address statements up to depth 3 (quick) / 4 (th
               'word-granular (PIC16C84) target, and a breadth-first search merged on the reference model state to depth 4 / 5 (themed sub-alphabets to 7) with two witness '
               'histories per state, are executed on the rebuilt assembler; every label value, every emitted byte\'s (segment, address), the final '
               'CPU and the documented errors are compared with the model, and the statement\'s invariants are evaluated on every model state.'
-              ' Two further operations define a structure with named / unnamed nested members and instantiate it at the current address.')
+              ' Two further operations define a structure with named / unnamed nested members and instantiate it at the current address.'
+              ' Added in the last round: labels on padded words under PHASE (68000); ORG in front of the first CPU/SEGMENT statement with -cpu; segment starts with and without another target selected before (differential).')
 LEVEL_NOTE = ('Trusted: Python reference model written from the manual; two implementation-defined choices are assumptions: ORG under PHASE sets the '
               'execution address, and a CPU statement selects the CODE segment. Domain: all counters stay within 0..$FF; histories leaving it are only '
               'checked for crashes.')
